@@ -68,8 +68,9 @@ def _case_variant(rng, s):
     return "".join(_up(c) if rng.random() < 0.3 else c.lower() if (rng.random() < 0.3 and len(c.lower()) == 1) else c for c in s)
 
 
-def gen_schema(rng, handlers=False, rich=True):
-    """a random member of the family"""
+def gen_schema(rng, handlers=False, rich=True, phandler=0.5):
+    """a random member of the family; with handlers, every key / multikey / section / multisection of the schema and of every
+    section type carries a handler attribute with probability phandler"""
     kts = ["basic-key", "basic-key", "identifier", "ipaddr-or-hostname"]
     nabs = rng.choice([0, 1, 1, 2, 3]) if rich else 0
     ncon = rng.choice([1, 2, 3, 4, 5])
@@ -81,7 +82,7 @@ def gen_schema(rng, handlers=False, rich=True):
     hcount = [0]
 
     def handler():
-        if handlers and rng.random() < 0.5:
+        if handlers and rng.random() < phandler:
             hcount[0] += 1
             return "H%d" % hcount[0]
         return None
